@@ -5,7 +5,7 @@ from ..engines import session
 from . import _session_common as sc
 
 PROP = "C13"
-BUDGET = {"quick": 900, "thorough": 25000}
+BUDGET = {"quick": 1500, "thorough": 30000}
 ALARM_S = 900
 RULE = ("seeded asymmetric random models x K plan x random augmented vectors z: ode_and_sensitivity in both arrangements, "
         "ode_and_sensitivityIV, and their Jacobians against the exact block form of the reference (confirmed by central "
